@@ -260,6 +260,10 @@ QCorePool  == Atoms({LitA}, CoreUn) \cup {LitB, Cls}
 \* optional / alternative parts between literals and classes, three builder steps: a(?:[ab]b)?, (?:a|[ab]b)a, ... (what the
 \* common-suffix walk has to get right: branches of different length that rejoin)
 SuffixLeaves == {LitA, LitB, Cls}
+\* a repetition between a literal head and an optional tail, three builder steps: bab*a?, ab*a?b, (what a suffix analysis that
+\* looks through repetitions has to get right: the bytes in front of the repetition are no suffix)
+QLits == {LitA, LitB}
+SuffixLoopPool == {LitA, LitB, Un(Star, LitB), Un(Quest, LitA), Un(Star, LitA)}
 SuffixUn   == {Quest, QuestZ}
 \* case folding needs an alphabet with both cases:  Sigma = {"a", "A"}.  No literal "A": the parser of
 \* rsc.io/binaryregexp factors  A|(?i:a)x  into  A(?:|x)  (Regexp.Equal ignores the fold flag), so the
